@@ -35,7 +35,7 @@ var lineSeps = []string{"", "\n", "\n", "\r\n", "<br>", "|", "\u2424", "--", "\n
 
 var sepPairs = []sepPair{{"", ""}, {"\n", "\n\n"}, {"", "\n\n"}, {"\r\n", "\r\n\r\n"}, {"<br>", "<p>"}, {"\n", "\n--\n"},
 	{"\n", "<P>\n"}, {"\n", "\n<P>"}, {"\n", "X\nY"}, {"\n", "\n\n\n"}, {"|", "||"}, {"<br>", "<br><p><br>"}, {"\n", "\n"},
-	{"ab", "abab"}, {"\n", "=\n=\n="}}
+	{"ab", "abab"}, {"\n", "=\n=\n="}, {"\n", "--\n"}, {"\n", "\n* * *\n"}, {"\n", "\n\n--\n\n"}, {"<br>", "<hr><br>"}}
 
 // separators made of line separators only (paragraph lines unambiguous)
 var cleanPairs = []sepPair{{"", ""}, {"\n", "\n\n"}, {"", "\n\n"}, {"\r\n", "\r\n\r\n"}, {"|", "||"}, {"\n", "\n\n\n"},
@@ -80,12 +80,14 @@ func (g *G) text(maxWords int, deg bool, seps ...string) string {
 		b.WriteString(g.word(deg))
 		if i+1 < n || g.chance(0.3) {
 			if len(seps) > 0 && g.chance(0.25) {
-				s := seps[g.r.Intn(len(seps))]
+				// one separator, or a run of independently drawn ones (line and paragraph separators adjacent)
 				k := 1
-				if g.chance(0.2) {
+				if g.chance(0.3) {
 					k = 1 + g.r.Intn(3)
 				}
-				b.WriteString(strings.Repeat(s, k))
+				for ; k > 0; k-- {
+					b.WriteString(seps[g.r.Intn(len(seps))])
+				}
 			} else if g.chance(0.85) {
 				b.WriteString(g.pick(spaceTokens))
 			} else if deg {
@@ -201,7 +203,7 @@ func (g *G) opts(pairs []sepPair, lineOnly bool) *rosed.Options {
 	}
 	o.TableBorders = g.chance(0.5)
 	o.TableHeaders = g.chance(0.5)
-	switch g.r.Intn(8) {
+	switch g.r.Intn(12) {
 	case 0:
 		o.TableCharSet = "+|-"
 	case 1:
@@ -212,6 +214,18 @@ func (g *G) opts(pairs []sepPair, lineOnly bool) *rosed.Options {
 		o.TableCharSet = "\u253c\u2502\u2500"
 	case 4:
 		o.TableCharSet = "ab"
+	case 5:
+		o.TableCharSet = "\u2500" // three bytes, one cluster
+	case 6:
+		o.TableCharSet = "\u00e9#" // three bytes, two clusters
+	case 7:
+		o.TableCharSet = "e\u0301" // three bytes, one cluster of two code points
+	case 8:
+		o.TableCharSet = "\u20ac" // three bytes, one cluster
+	case 9:
+		o.TableCharSet = "\u0600" // Prepend: glues onto the padding that completes the set
+	case 10:
+		o.TableCharSet = "#\u0600"
 	}
 	return &o
 }
